@@ -109,18 +109,28 @@ where
 
     fn next(&mut self) -> Option<Self::Item> {
         let data = self.data.take()?;
-        let mut last = false;
 
-        let next_offset = match L::from_bytes(data.bytes()) {
-            Ok(x) => x.to_usize().unwrap(),
+        let stored_offset = match L::from_bytes(data.bytes()) {
+            Ok(x) => *x,
             Err(e) => return Some(Err(e.offset(self.pos))),
         };
 
-        if next_offset == 0 {
+        if stored_offset == L::zero() {
             return None;
-        } else if next_offset == L::max_value().to_usize().unwrap() {
-            last = true;
         }
+        // The marker of the last item is compared in `L`: `L::MAX` need not fit into `usize`.
+        let last = stored_offset == L::max_value();
+        let next_offset = match stored_offset.to_usize() {
+            Some(offset) => offset,
+            None if last => usize::MAX,
+            None => {
+                // An offset that is not even addressable cannot be satisfied by any amount of input.
+                return Some(Err(Error {
+                    kind: ErrorKind::InvalidData,
+                    pos: self.pos,
+                }));
+            }
+        };
 
         let payload_offset = FlexVec::<T, L>::OFFSET_SIZE;
         if payload_offset > next_offset {
